@@ -359,6 +359,22 @@ def sweep(ctx):
                 if 'fail' in r:
                     ctx.fail(c01_targets.par_signature(r), f"{r['op']} on {r['cls']} of {r['src']!r} -> {r.get('after')!r}: {r['fail'][:200]}", r)
     ctx.notes['par_unpar_steps'] = rn
+    # optional single-node fields (TypeVar.bound, returns, annotation, Slice parts, Dict key -> **, kw_defaults, vararg, MatchAs.pattern
+    # ...): delete / delete-then-put-back / replace with the child plain, parenthesised, multi-line parenthesised, multi-byte, nested
+    on = 0
+    for lst in pmap(c01_targets.run_opt_case, c01_targets.opt_cases()):
+        for r in lst:
+            if 'setup_error' in r:
+                ctx.brk('harness', 'c01_targets opt set-up', str(r)[:200])
+                continue
+            if 'raised' in r:
+                ctx.tally('opt_raised', f"{r['cls']}.{r['field']}:{r['op']}:{r['raised']}")
+            on += 1
+            ctx.count(('o', r['case'][1], r['vi'], r['var'], r['op']), True)
+            ctx.tally('opt_field', f"{r['cls']}.{r['field']}")
+            if 'fail' in r:
+                ctx.fail(c01_targets.opt_signature(r), f"{r['op']} (step {r['step']}) on {r['cls']}.{r['field']} of {r['src']!r} -> {r.get('after')!r}: {r['fail'][:200]}", r)
+    ctx.notes['optional_field_steps'] = on
     # witnesses of REPAIRED findings are regression inputs: a 'fixed' entry suppresses nothing, so a witness that fails again
     # (repair reverted or not yet applied) is reported under its own signature
     import framework
@@ -419,7 +435,7 @@ def check_known(ctx, entry):
     w = entry['witness']
     if 'case' in w:
         import c01_targets
-        d = (c01_targets.replay_prim(w) if w['case'][0] == 'p' else c01_targets.replay_move(w) if w['case'][0] == 'm' else c01_targets.replay_par(w) if w['case'][0] == 'r' else c01_targets.replay(w))
+        d = (c01_targets.replay_prim(w) if w['case'][0] == 'p' else c01_targets.replay_move(w) if w['case'][0] == 'm' else c01_targets.replay_par(w) if w['case'][0] == 'r' else c01_targets.replay_opt(w) if w['case'][0] == 'o' else c01_targets.replay(w))
         if d:
             ctx.fail(entry['id'], entry['what'], w)
         return
@@ -452,7 +468,7 @@ def replay(ctx, data):
         return
     if 'case' in w:                 # a witness of the targeted product sweeps
         import c01_targets
-        d = (c01_targets.replay_prim(w) if w['case'][0] == 'p' else c01_targets.replay_move(w) if w['case'][0] == 'm' else c01_targets.replay_par(w) if w['case'][0] == 'r' else c01_targets.replay(w))
+        d = (c01_targets.replay_prim(w) if w['case'][0] == 'p' else c01_targets.replay_move(w) if w['case'][0] == 'm' else c01_targets.replay_par(w) if w['case'][0] == 'r' else c01_targets.replay_opt(w) if w['case'][0] == 'o' else c01_targets.replay(w))
         if d:
             ctx.fail('replay', d, w)
         return
